@@ -100,7 +100,9 @@ def gen_cases(tier, seed):
             thr.append(float(rng.uniform(pos[0], pos[-1])))
         if np.any(d == 0):
             # a point exactly on a nucleus: any positive threshold, however small, leaves that nucleus out
-            thr += [1e-12, 1e-9, float(10.0 ** rng.uniform(-7, -3))]
+            thr += [1e-12, 1e-9, float(10.0 ** rng.uniform(-7, -3)), 1e-200, 5e-324]
+        if i % 9 == 4:
+            thr.append(1e200)  # beyond every distance by any margin: every nucleus is left out everywhere
         cases.append({"shells": shells, "points": pts, "nuc": nuc, "Z": Z, "dm": dm, "transform": T, "thresholds": thr,
                       "classes": classes + sorted(pcl) + [tcls, dcls, "nnuc:%d" % nnuc] + (["Z:negative"] if min(Z) < 0 else []) + (["Z:big"] if max(abs(z) for z in Z) > 5 else []),
                       "cost": len(pts) * sum((3 + a + b) ** 3 * len(x["e"]) * len(y["e"]) for x, a in zip(shells, ls) for y, b in zip(shells, ls))})
